@@ -219,8 +219,10 @@ func (p c16lcProg) lean() string {
 }
 
 // c16lcCheckProg reads startCheck / stopCheck:
-//   addr := host.AddressString()
-//   if <c|_>, ok := hc.checkers[addr]; <ok|!ok> { BODY }
+//
+//	addr := host.AddressString()
+//	if <c|_>, ok := hc.checkers[addr]; <ok|!ok> { BODY }
+//
 // with effects allowed before, inside and after the guarded block.
 func c16lcCheckProg(f *ast.File, name string) (c16lcProg, error) {
 	var p c16lcProg
@@ -365,8 +367,9 @@ func c16lcCallback(f *ast.File, name string) (flagOps []string, local int64, err
 }
 
 // c16lcHostSet reads SetHealthCheckerHostSet:
-//   deleteHosts, newHosts := findNewAndDeleteHost(hc.hosts, hostSet)
-//   for _, h := range newHosts { hc.startCheck(h) } / for _, h := range deleteHosts { hc.stopCheck(h) } / hc.hosts = hostSet
+//
+//	deleteHosts, newHosts := findNewAndDeleteHost(hc.hosts, hostSet)
+//	for _, h := range newHosts { hc.startCheck(h) } / for _, h := range deleteHosts { hc.stopCheck(h) } / hc.hosts = hostSet
 func c16lcHostSet(f *ast.File) ([]string, error) {
 	const name = "SetHealthCheckerHostSet"
 	fd := findFunc(f, "healthChecker", name)
